@@ -462,6 +462,46 @@ class World:
         self.probe('p_object_from_class_method')
         return {'r': 'ok', 'n': n}
 
+    def op_derive(self, rec):
+        """A new object obtained from a live one by arithmetic (x.inv(), x * x, -x, Rand(N)); its
+        elements are taken as found (after a shape check): what is judged is every list operation
+        applied to it -- and to the object it came from -- afterwards."""
+        x = self.ref(rec['x'])
+        how = rec.get('how', 'inv')
+        if x is None:
+            return {'r': 'skip'}
+        cls = self.K[x.cname]
+        n = len(x.model)
+        try:
+            if how == 'inv' and hasattr(cls, 'inv') and n >= 1:
+                real = x.real.inv()
+            elif how == 'mul_self' and x.cname in ('SO2', 'SE2', 'SO3', 'SE3', 'Quaternion',
+                                                   'UnitQuaternion') and n >= 1:
+                real = x.real * x.real
+            elif how == 'rand' and hasattr(cls, 'Rand') and x.cname != 'Twist3':
+                np.random.seed(int(rec.get('npseed', 0)) & 0x7FFFFFFF)
+                n = max(1, int(rec.get('n', 2)))
+                real = cls.Rand(N=n)
+            else:
+                return {'r': 'skip'}
+        except Exception as e:                                   # noqa: BLE001
+            return {'r': 'raise:' + type(e).__name__}       # arithmetic is not C10's business
+        data = getattr(real, 'data', None)
+        shape = identity_value(x.cname).shape
+        if type(real) is not cls or not isinstance(data, list) or len(data) != n or \
+                any(not isinstance(a, np.ndarray) or a.shape != shape for a in data):
+            return {'r': 'skip'}                             # not a well-formed object: not reused
+        try:
+            for a in data:          # arithmetic results are not validated by the library; indexing
+                cls(a)              # re-validates.  Only members that survive that are list subjects
+        except Exception:                                        # noqa: BLE001
+            return {'r': 'skip'}
+        elems = [Elem(self.next_tag + k, np.array(a, dtype=float)) for k, a in enumerate(data)]
+        self.next_tag += n
+        self.objs.append(Obj(x.cname, real, elems))
+        self.probe('p_object_from_arithmetic')
+        return {'r': 'ok', 'n': n}
+
     def op_empty(self, rec):
         cname = rec['cls']
         _, real = self.run_call(lambda: self.K[cname].Empty(), 'ok', 'Empty()')
@@ -881,7 +921,7 @@ PROBES = ['slice_empty_result', 'slice_negative_step', 'slice_bound_beyond_len',
           'operand_shares_element_with_receiver', 'pop_empty', 'insert_beyond_end',
           'setitem_negative', 'get_negative', 'parent_into_child', 'child_into_parent',
           'rejected_then_accepted', 'alloc_zero', 'from_list_ok', 'special_values',
-          'object_from_class_method', 'object_from_deepcopy', 'object_from_pickle', 'object_from_pycopy', 'slice_numpy_int_bounds', 'reversed_iteration', 'overlapping_iterations', 'mutation_during_iteration', 'op_on_len_ge_10', 'op_on_len_ge_17', 'op_on_len_ge_33',
+          'object_from_class_method', 'object_from_arithmetic', 'object_from_deepcopy', 'object_from_pickle', 'object_from_pycopy', 'slice_numpy_int_bounds', 'reversed_iteration', 'overlapping_iterations', 'mutation_during_iteration', 'op_on_len_ge_10', 'op_on_len_ge_17', 'op_on_len_ge_33',
           'from_list_bad_item_next_to_empty_item', 'extend_by_len_0',
           'extend_by_len_1', 'extend_by_len_2']
 
@@ -904,7 +944,7 @@ BASE_WEIGHTS = [('get', 2.0), ('getslice', 2.0), ('iter', 1.0), ('append', 1.5),
                 ('setitem', 1.5), ('reverse', 0.7), ('clear', 0.3), ('from_list', 1.0),
                 ('empty', 0.4), ('alloc', 0.5), ('copy', 0.8), ('new', 0.6)]
 FAULT_KINDS = ['wrong_class', 'multi_valued', 'bad_index']
-STEP_CHOICES = [1, 2, 3, 3, 4, 4, 5, 6, 8, 8, 12, 16, 24, 40, 60]
+STEP_CHOICES = [1, 2, 3, 3, 4, 4, 5, 6, 8, 8, 12, 16, 24, 40, 60, 60, 150]
 
 
 def gen_config(rng, classes_pool=None):
@@ -1007,6 +1047,9 @@ def gen_step(world, cfg, rng):
     x = objs[xi]
     n = len(x.model)
 
+    if op == 'new' and rng.random() < 0.2:
+        return {'op': 'derive', 'x': xi, 'how': rng.choice(['inv', 'mul_self', 'rand']),
+                'n': rng.randint(1, 4), 'npseed': rng.randrange(1 << 30)}
     if op == 'new' and rng.random() < 0.25:
         c = rng.choice(cfg['classes'])
         vias = World.VIA.get(c, [])
